@@ -17,6 +17,9 @@ pub(crate) struct Html5Serializer<'a, N: Normalizer> {
     cdata_section_names: &'a [NameId],
     fullname_serializer: FullnameSerializer<'a>,
     normalizer: N,
+    // elements without declarations of their own that got a frame for the
+    // default namespace forced on them
+    forced_frames: Vec<Node>,
 }
 
 fn html_matches_suppress(
@@ -65,6 +68,7 @@ impl<'a, N: Normalizer> Html5Serializer<'a, N> {
             cdata_section_names,
             fullname_serializer,
             normalizer,
+            forced_frames: Vec::new(),
         }
     }
 
@@ -131,14 +135,21 @@ impl<'a, N: Normalizer> Html5Serializer<'a, N> {
         use Output::*;
         let r = match output {
             StartTagOpen(element) => {
-                self.fullname_serializer
-                    .push(self.xot.namespace_declarations(node));
+                let declarations = self.xot.namespace_declarations(node);
+                let has_declarations = !declarations.is_empty();
+                self.fullname_serializer.push(declarations);
                 let namespace_id = self.xot.namespace_for_name(element.name_id);
                 if self
                     .html5_elements
                     .must_be_serialized_unprefixed(namespace_id)
                     && !self.fullname_serializer.has_empty_prefix(namespace_id)
                 {
+                    // the forced default namespace must end with this element:
+                    // without declarations of its own it has no frame yet
+                    if !has_declarations {
+                        self.fullname_serializer.push_frame(vec![]);
+                        self.forced_frames.push(node);
+                    }
                     // add the empty prefix for the namespace
                     self.fullname_serializer.add_empty_prefix(namespace_id);
                     // we also need to serialize the additional xmlns
@@ -182,8 +193,12 @@ impl<'a, N: Normalizer> Html5Serializer<'a, N> {
                         ),
                     }
                 };
+                let forced = self.forced_frames.last() == Some(&node);
+                if forced {
+                    self.forced_frames.pop();
+                }
                 self.fullname_serializer
-                    .pop(self.xot.has_namespace_declarations(node));
+                    .pop(self.xot.has_namespace_declarations(node) || forced);
                 r
             }
             Prefix(prefix_id, namespace_id) => {
